@@ -237,6 +237,31 @@ Theorem electrum_v2_decode_no_escape : forall (hmac : list N -> list N -> list N
 Proof. exact NoEscapeMnem.ev2_decode_family. Qed.
 Print Assumptions electrum_v2_decode_no_escape.
 
+(* ---- the generators' bytes constructors: a wrong entropy length is a ValueError, a legal one is encoded (the
+        models' IndexError / AssertionError sites are unreachable on a bytes object) ---- *)
+(* Bip39MnemonicGenerator(lang).FromEntropy(bytes) / Bip39MnemonicEncoder(lang).Encode(bytes) *)
+Theorem bip39_encode_no_escape : forall (sha256 nfkd lower : list N -> list N) wl ent,
+  (forall x, length (sha256 x) = 32%nat) /\ (forall x, bytes_ok (sha256 x)) -> In wl WlBip39.bip39_langs -> bytes_ok ent ->
+  in_family (Bip39.encode sha256 nfkd lower wl ent) = true.
+Proof. exact NoEscapeMnem.bip39_encode_family. Qed.
+Print Assumptions bip39_encode_no_escape.
+(* MoneroMnemonicGenerator(lang).FromEntropyNoChecksum / FromEntropyWithChecksum (bytes) *)
+Theorem monero_encode_no_escape : forall i L chk b, nth_error xmr_langs i = Some L -> bytes_ok b ->
+  in_family (MoneroMnemonic.encode xmr_langs xmr_entropy_bit_lens i chk b) = true.
+Proof. exact NoEscapeMnem.xmr_encode_family. Qed.
+Print Assumptions monero_encode_no_escape.
+(* AlgorandMnemonicGenerator.FromEntropy(bytes) *)
+Theorem algorand_encode_no_escape : forall (sha512_256 : list N -> list N) b,
+  (forall x, length (sha512_256 x) = 32%nat) -> (forall x, bytes_ok (sha512_256 x)) -> bytes_ok b ->
+  in_family (AlgorandMnemonic.encode algo_wl algo_cklen algo_entropy_bit_lens algo_word_bits sha512_256 b) = true.
+Proof. exact NoEscapeMnem.algo_encode_family. Qed.
+Print Assumptions algorand_encode_no_escape.
+(* ElectrumV1MnemonicGenerator.FromEntropy(bytes) *)
+Theorem electrum_v1_encode_no_escape : forall b, bytes_ok b ->
+  in_family (ElectrumV1Mnemonic.encode wl_ev1 ev1_entropy_bit_lens b) = true.
+Proof. exact NoEscapeMnem.ev1_encode_family. Qed.
+Print Assumptions electrum_v1_encode_no_escape.
+
 (* ================================================================== 5. extended keys, SLIP-32, WIF, BIP-38 *)
 Import BU.Model.Bip32Data BU.Model.Bip32Ser.
 
@@ -276,11 +301,23 @@ Theorem slip32_deserialize_no_escape : forall (bech_dec : list N -> list N -> re
 Proof. intros d s v H. exact (NoEscapeSer.slip32_deserialize_family d H s v). Qed.
 Print Assumptions slip32_deserialize_no_escape.
 
-(* WifDecoder.Decode(str, net_ver) *)
-Theorem wif_decode_no_escape : forall (sha256 : list N -> list N) s nv,
+(* WifDecoder.Decode(str, net_ver).
+   FULL-STRENGTH statement, FALSE of the (faithful) model and of the code -- finding C14-WIF-NETVER:
+     forall s net_ver, in_family (wif_decode ... s net_ver) = true.
+   ord(net_ver) raises TypeError whenever net_ver is not exactly one byte and the Base58Check payload is non-empty. *)
+Theorem wif_decode_no_escape_partial : forall (sha256 : list N -> list N) s nv,
   in_family (WifCodec.wif_decode b58_alph_btc b58_radix b58_cklen sha256 s [nv]) = true.
 Proof. intros. exact (NoEscapeSer.wif_decode_family _ _ _ _ _ _). Qed.
-Print Assumptions wif_decode_no_escape.
+Print Assumptions wif_decode_no_escape_partial.
+Theorem wif_decode_net_ver_escapes : forall (sha256 : list N -> list N) s nv b0 rest,
+  check_decode b58_alph_btc b58_radix b58_cklen sha256 s = Ok (b0 :: rest) -> length nv <> 1%nat ->
+  WifCodec.wif_decode b58_alph_btc b58_radix b58_cklen sha256 s nv = Err TypeError.
+Proof. intros sha256 s nv b0 rest. exact (NoEscapeSer.wif_decode_bad_net_ver _ _ _ sha256 s nv b0 rest). Qed.
+Print Assumptions wif_decode_net_ver_escapes.
+Theorem wif_decode_no_escape_refuted : exists (sha256 : list N -> list N) s nv,
+  in_family (WifCodec.wif_decode b58_alph_btc b58_radix b58_cklen sha256 s nv) = false.
+Proof. exact NoEscapeSer.wif_decode_net_ver_refuted. Qed.
+Print Assumptions wif_decode_no_escape_refuted.
 
 (* Bip38Decrypter.DecryptNoEc(str, passphrase) *)
 Theorem bip38_noec_decrypt_no_escape : forall (sha256 nfc : list N -> list N) (utf8 : list N -> res (list N))
